@@ -184,11 +184,40 @@ async fn check_case(rep: &Report, l: &mut Local, t: &mut Target, c: &Case, regis
         }
         return;
     }
-    let Some(resp) = resp else {
-        t.conn = None;
-        rep.inconclusive("no-http-response");
-        rep.note(format!("no response for {}", case_json(c, t.name)));
-        return;
+    let resp = match resp {
+        Some(r) => r,
+        None => {
+            // no answer on a kept-alive connection: once more on a fresh one, timed, so that
+            // "closed without answering" (a refutation of "answers 204") and "slow" differ
+            t.conn = None;
+            let mut fresh = connect(t.addr).await;
+            let started = std::time::Instant::now();
+            let again = match fresh.as_mut() {
+                Some(cn) => request(cn, c).await,
+                None => None,
+            };
+            match again {
+                Some(r) => {
+                    bump(l, "retried-on-fresh-connection");
+                    r
+                }
+                None if fresh.is_some() && started.elapsed() < BUDGET / 2 => {
+                    let class = match c.headers.first() {
+                        Some((_, v)) => match reference(v) {
+                            Some(_) => "valid-challenge",
+                            None => why_invalid(v),
+                        },
+                        None => "missing",
+                    };
+                    rep.violation(&format!("C13:connection-closed-without-answer:{class}"), format!("{}: the server closed the connection instead of answering 204 (twice, second time on a fresh connection)", t.name), replay);
+                    return;
+                }
+                None => {
+                    rep.inconclusive("no-http-response-within-budget");
+                    return;
+                }
+            }
+        }
     };
     if resp.headers.iter().any(|(n, v)| n == "connection" && v.eq_ignore_ascii_case(b"close")) {
         t.conn = None;
